@@ -5,13 +5,21 @@ use std::marker::PhantomPinned;
 use std::panic::{RefUnwindSafe, UnwindSafe};
 use std::pin::Pin;
 use std::ptr::NonNull;
+#[cfg(folo_verif)]
+use std::sync::Arc;
+#[cfg(folo_verif)]
+use std::sync::atomic::Ordering;
+#[cfg(not(folo_verif))]
 use std::sync::atomic::{AtomicU8, Ordering};
+#[cfg(not(folo_verif))]
 use std::sync::{Arc, Mutex};
 use std::task::{self, Poll, Waker};
 
 use awaiter_set::{Awaiter, AwaiterSet};
 
 use crate::NEVER_POISONED;
+#[cfg(folo_verif)]
+use crate::verif::{AtomicU8, Mutex};
 
 /// Thread-safe async manual-reset event.
 ///
